@@ -15,7 +15,7 @@ _ORIG = {
     'math.exp': math.exp, 'math.expm1': math.expm1, 'math.log': math.log, 'math.sqrt': math.sqrt,
     'math.cos': math.cos, 'math.radians': math.radians,
     'np.sqrt': np.sqrt, 'np.exp': np.exp, 'np.maximum': np.maximum, 'np.interp': np.interp,
-    'np.expm1': np.expm1, 'np.log': np.log, 'np.cos': np.cos, 'np.radians': np.radians,
+    'np.expm1': np.expm1, 'np.log': np.log, 'np.cos': np.cos, 'np.radians': np.radians, 'np.sin': np.sin,
 }
 
 
@@ -44,6 +44,30 @@ def _cos(x):
     return _ORIG['math.cos'](x)
 
 
+def _np_radians(x, *a, **kw):
+    if isinstance(x, SymReal):
+        return x * (math.pi / 180.0)
+    if isinstance(x, np.ndarray) and x.dtype == object:
+        return np.frompyfunc(lambda v: v * (math.pi / 180.0), 1, 1)(x)
+    return _ORIG['np.radians'](x, *a, **kw)
+
+
+def _np_sin(x, *a, **kw):
+    if isinstance(x, SymReal):
+        return sym.sym_sincos(x)[0]
+    if isinstance(x, np.ndarray) and x.dtype == object:
+        return np.frompyfunc(lambda v: sym.sym_sincos(v)[0] if isinstance(v, SymReal) else math.sin(v), 1, 1)(x)
+    return _ORIG['np.sin'](x, *a, **kw)
+
+
+def _np_cos(x, *a, **kw):
+    if isinstance(x, SymReal):
+        return sym.sym_sincos(x)[1]
+    if isinstance(x, np.ndarray) and x.dtype == object:
+        return np.frompyfunc(lambda v: sym.sym_sincos(v)[1] if isinstance(v, SymReal) else math.cos(v), 1, 1)(x)
+    return _ORIG['np.cos'](x, *a, **kw)
+
+
 def _maximum(a, b, *args, **kw):
     if is_sym(a) or is_sym(b):
         return sym.sym_maximum(a, b)
@@ -69,6 +93,9 @@ def replacements():
         id(np.expm1): _arr(sym.sym_expm1, np.expm1),
         id(np.log): _arr(sym.sym_log, np.log),
         id(np.maximum): _maximum,
+        id(np.radians): _np_radians,
+        id(np.sin): _np_sin,
+        id(np.cos): _np_cos,
         id(np.interp): _interp,
     }
 
